@@ -392,18 +392,22 @@ func enumCheck() []Scenario {
 }
 
 func findingScenarios(r *hutil.Rng) []Scenario {
+	// same histories as the committed replays of the findings, other identifiers: the driver requires
+	// them to do exactly what the replays are recorded to do (oracle messages, command/result
+	// sequence, outcomes)
 	var out []Scenario
 	x := genXid(r, false)
-	out = append(out, Scenario{Version: "5.7.30", Xids: []string{x, genXid(r, false)}, Branches: []int64{41, 42}, Refuse: []int{0, 0},
+	out = append(out, Scenario{Version: "5.7.30", Xids: []string{x, genXid(r, false)}, Branches: []int64{int64(41 + r.Intn(1000)), 2042}, Refuse: []int{0, 0},
 		Stream: "finding:xa.conn-reuse",
 		Ops:    []Op{{K: "auto"}, {K: "p2", Target: 0, Commit: true}, {K: "reuse", G: 1, Target: 0}}})
-	out = append(out, Scenario{Version: "5.7.30", Xids: []string{x, genXid(r, false)}, Branches: []int64{43, 44}, Refuse: []int{0, 0},
-		Stream: "finding:xa.conn-reuse",
-		Ops:    []Op{{K: "auto"}, {K: "p2", Target: 0, Commit: r.Chance(1, 2)}, {K: "reuse", G: 1, Target: 0, Commit: true}}})
 	for _, commit := range []bool{true, false} {
-		out = append(out, Scenario{Version: "5.7.30", Xids: []string{x}, Branches: []int64{51}, Refuse: []int{0},
+		n := 1
+		if commit {
+			n = 2
+		}
+		out = append(out, Scenario{Version: "5.7.30", Xids: []string{x}, Branches: []int64{int64(51 + r.Intn(1000))}, Refuse: []int{0},
 			Stream: "finding:xa.explicit-tx",
-			Ops:    []Op{{K: "explicit", NStmts: 1 + r.Intn(3), Commit: commit}}})
+			Ops:    []Op{{K: "explicit", NStmts: n, Commit: commit}}})
 	}
 	return out
 }
